@@ -26,10 +26,11 @@ def jVal : Val → Json
   | .int i => jInt i
   | .rat q => jRat q
   | .str s => jObj [("s", Json.str s)]
+  | .nzero => Json.str "-0"
 
 def pVal (j : Json) : Except String Val :=
   match j with
-  | .str s => do return .rat (← parseRat s)
+  | .str s => if s == "-0" then pure .nzero else do return .rat (← parseRat s)
   | .num _ => do return .int (← j.getInt?)
   | _ => do
     let s ← (← j.getObjVal? "s").getStr?
@@ -95,6 +96,7 @@ partial def pJ (j : Json) : Except String J := do
   else if t == "int" then return .int (← getInt j "v")
   else if t == "num" then return .num (← getRat j "v")
   else if t == "str" then return .str (← getStr j "v")
+  else if t == "nzero" then return .nzero
   else if t == "arr" then return .arr (← (← getArr j "v").mapM pJ)
   else if t == "obj" then
     let kv ← (← getArr j "v").mapM fun e => do
@@ -110,6 +112,7 @@ partial def jJ : J → Json
   | .int i => jObj [("t", Json.str "int"), ("v", jInt i)]
   | .num x => jObj [("t", Json.str "num"), ("v", jRat x)]
   | .str s => jObj [("t", Json.str "str"), ("v", Json.str s)]
+  | .nzero => jObj [("t", Json.str "nzero")]
   | .arr xs => jObj [("t", Json.str "arr"), ("v", jArr (xs.map jJ))]
   | .obj kv => jObj [("t", Json.str "obj"), ("v", jArr (kv.map fun (k, v) => jArr [Json.str k, jJ v]))]
 
